@@ -22,7 +22,8 @@
    prefix is the two tokens z Z.                                                                        *)
 EXTENDS Mon_DnsLayer, TLC
 CONSTANTS Mode, Trs, Ups,          \* "flow" | "seg";  transports and upstream-configured values chosen in Init
-          Ids, Qs,                 \* message ids, question labels (a query for "A" has RD set, others not)
+          Ids, Qs,                 \* message ids; question sections <<name, spelling, kind>>: the same name in several
+                                   \* letter-case spellings (DNS 0x20 clients); a query for name "A" has RD set
           MaxQ, MaxR, MaxBad,      \* bounds: client queries, upstream replies, malformed client inputs per run
           BadKinds,                \* which malformed inputs: subset of {"bad", "zero"}
           Policies,                \* what an addon may do in dns_request: "none" | "respond" | "error"
@@ -34,7 +35,11 @@ vars == <<tr, up, L, cw, sw, cref, sref, nq, nr, nb, run, plan, phase, mon, obs>
 
 Auto == Mode = "seg"
 Msg(kind, id, q, rd) == [kind |-> kind, id |-> id, q |-> q, rd |-> rd]
-NoMsg == Msg("none", 0, "", 0)
+NoQ == <<"", 0, "">>
+NoMsg == Msg("none", 0, NoQ, 0)
+\* What unpack + packed make of a question name: ASCII labels keep their case; an ACE label written with a lower-case
+\* "xn--" prefix goes through the idna codec and comes back lower-cased (spelling 2 of an "idn" name -> spelling 3).
+CodeSpelling(q) == IF q[3] = "idn" /\ q[2] = 2 THEN <<q[1], 3, q[3]>> ELSE q
 Tok(t, m) == [t |-> t, m |-> m]
 Frame(m) == <<Tok("p", m), Tok("P", m), Tok("b", m), Tok("B", m)>>
 ZeroPrefix == <<Tok("z", NoMsg), Tok("Z", NoMsg)>>
@@ -65,10 +70,10 @@ RefAdd(r, seg) == IF r.mal THEN r ELSE RefFrame(r.rest \o seg)
 \* ---- projections the harness records ----
 HookEv(name, id, f) ==
   [k |-> "hook", name |-> name, has_req |-> f.req # <<>>,
-   rid |-> IF f.req # <<>> THEN id ELSE 0, rq |-> IF f.req # <<>> THEN f.req[1] ELSE "",
+   rid |-> IF f.req # <<>> THEN id ELSE 0, rq |-> IF f.req # <<>> THEN f.req[1] ELSE NoQ,
    rrd |-> IF f.req # <<>> THEN f.req[2] ELSE 0, rop |-> 0,
    has_resp |-> f.resp # <<>>, pid |-> IF f.resp # <<>> THEN id ELSE 0,
-   pq |-> IF f.resp # <<>> THEN f.resp[1] ELSE "", porigin |-> IF f.resp # <<>> THEN f.resp[2] ELSE "",
+   pq |-> IF f.resp # <<>> THEN f.resp[1] ELSE NoQ, porigin |-> IF f.resp # <<>> THEN f.resp[2] ELSE "",
    fresh |-> IF f.resp # <<>> THEN ~f.resp[3] ELSE FALSE]
 CloseEv(side) == [k |-> "close", c |-> side]
 
@@ -121,9 +126,9 @@ Resume(w, policy, ok) ==
 
 Handle(w, m) ==
   IF m.kind = "q"
-    THEN StartHook([w EXCEPT !.flows[m.id].has = TRUE, !.flows[m.id].req = <<m.q, m.rd>>],
+    THEN StartHook([w EXCEPT !.flows[m.id].has = TRUE, !.flows[m.id].req = <<CodeSpelling(m.q), m.rd>>],
                    "req_hook", "dns_request", m.id)
-    ELSE StartHook([w EXCEPT !.flows[m.id].has = TRUE, !.flows[m.id].resp = <<m.q, "upstream", FALSE, 1>>],
+    ELSE StartHook([w EXCEPT !.flows[m.id].has = TRUE, !.flows[m.id].resp = <<CodeSpelling(m.q), "upstream", FALSE, 1>>],
                    "resp_hook", "dns_response", m.id)
 
 Dispatch(w, ev) ==
@@ -158,7 +163,8 @@ W(first) == [L EXCEPT !.sw = sw, !.out = first]
 Commit(w) == /\ L' = [w EXCEPT !.sw = <<>>, !.out = <<>>] /\ sw' = w.sw /\ Emit(w.out)
 
 \* seg mode: the i-th frame of the plan
-PlanMsg(i) == IF plan[i] = "q" THEN Msg("q", i, IF i % 2 = 1 THEN "A" ELSE "B", IF i % 2 = 1 THEN 1 ELSE 0) ELSE Msg("bad", 0, "", 0)
+PlanQ(i) == <<<<"A", 1, "ascii">>, <<"B", 1, "ascii">>, <<"A", 2, "ascii">>>>[((i - 1) % 3) + 1]
+PlanMsg(i) == IF plan[i] = "q" THEN Msg("q", i, PlanQ(i), IF PlanQ(i)[1] = "A" THEN 1 ELSE 0) ELSE Msg("bad", 0, NoQ, 0)
 RECURSIVE PlanToks(_), PlanEvs(_)
 PlanToks(i) == IF i > Len(plan) THEN <<>>
                ELSE (IF plan[i] = "zero" THEN ZeroPrefix ELSE Frame(PlanMsg(i))) \o PlanToks(i + 1)
@@ -175,7 +181,7 @@ StartRun ==
   /\ cw' = IF Auto THEN PlanToks(1) ELSE <<>>
   /\ Emit(<<[k |-> "run", r |-> run + 1, cls |-> IF Auto THEN PlanClass ELSE "flow"]>> \o (IF Auto THEN PlanEvs(1) ELSE <<>>))
 
-RdOf(q) == IF q = "A" THEN 1 ELSE 0
+RdOf(q) == IF q[1] = "A" THEN 1 ELSE 0
 ClientQuery(id, q) ==
   /\ Running /\ ~Auto /\ ~L.cclosed /\ nq < MaxQ /\ nq' = nq + 1
   /\ UNCHANGED <<tr, up, cref, sref, nr, nb, run, plan, phase>>
@@ -198,7 +204,7 @@ ClientBad ==
   /\ Running /\ ~Auto /\ ~L.cclosed /\ nb < MaxBad /\ nb' = nb + 1 /\ "bad" \in BadKinds
   /\ UNCHANGED <<tr, up, cref, sref, nq, nr, run, plan, phase>>
   /\ LET rec == [k |-> "bad", side |-> "client"]
-         m == Msg("bad", 0, "", 0)
+         m == Msg("bad", 0, NoQ, 0)
      IN IF tr = "udp" THEN /\ cw' = cw /\ Commit(Feed(W(<<rec>>), [side |-> "client", data |-> <<Tok("D", m)>>]))
         ELSE /\ cw' = cw \o Frame(m) /\ UNCHANGED <<L, sw>> /\ Emit(<<rec>>)
 ClientZero ==
